@@ -23,6 +23,10 @@ FLOORS = {"quick": (30000, 300), "thorough": (500000, 2000)}
 
 
 def run(tier, seed, replay):
+    if replay is not None:
+        # a replay re-executes one case: the coverage floors do not apply
+        global FLOORS
+        FLOORS = {"quick": (1, 1), "thorough": (1, 1)}
     rep = vcommon.Report("C03", level="exploration",
                          rule="case = (type or function, value, cleanup entry point, lists|lists-and-own, direct|indirect, pointer width, list policy); distinct = shape keys of the types / signatures")
     _abiinterp.run_bin(rep, "c03", tier, seed, replay, timeout=900 if tier == "quick" else 3600, miri_shard=(tier == "thorough"))
